@@ -225,7 +225,7 @@ OP(double_bits)
 }
 
 // (share_classes e) -> pointer-identity classes of the nodes reachable through the serialized fields:
-// list of [key, distinct_objects, references] where key = "<type code>:<hash>:<str>" (str cut at 60 chars);
+// list of [key, distinct_objects, references, str] where key = "<type code>:<hash>" (+ ":<str>" for leaves; str cut at 60);
 // temporaries created by accessors (Rational::get_num, Complex::real_part) are listed like any other node.
 OP(share_classes)
 {
@@ -234,6 +234,7 @@ OP(share_classes)
         size_t objects = 0, refs = 0;
     };
     std::map<std::string, Info> classes;
+    std::map<std::string, std::string> texts;
     std::unordered_map<const Basic *, std::string> seen;
     std::vector<RCP<const Basic>> keep; // keep temporaries alive so that addresses stay unique
     std::vector<RCP<const Basic>> stack{root};
@@ -250,7 +251,11 @@ OP(share_classes)
         std::string s = n->__str__();
         if (s.size() > 60)
             s = s.substr(0, 60);
-        std::string key = std::to_string((int)n->get_type_code()) + ":" + std::to_string((unsigned long long)n->hash()) + ":" + s;
+        // the printed form is informative only: term order of an Add holding NaN doubles is not a function of its value
+        std::string key = std::to_string((int)n->get_type_code()) + ":" + std::to_string((unsigned long long)n->hash());
+        if (n->get_args().empty())
+            key += ":" + s;
+        texts[key] = s;
         seen[n.get()] = key;
         Info &inf = classes[key];
         inf.objects++;
@@ -266,6 +271,7 @@ OP(share_classes)
         e.v.push_back(Val::str(kv.first));
         e.v.push_back(Val::integer((long)kv.second.objects));
         e.v.push_back(Val::integer((long)kv.second.refs));
+        e.v.push_back(Val::str(texts[kv.first]));
         r.v.push_back(e);
     }
     return r;
